@@ -7,6 +7,7 @@ package main
 // construct with a wrong detail); an unrecognised shape is UNDECIDED.
 
 import (
+	"go/constant"
 	"go/token"
 	"fmt"
 	"regexp"
@@ -865,14 +866,16 @@ func checkLocationPrinter(c *Ctx, bl, pl *ssa.Function) {
 			if f != pl {
 				ftb = newDeepTB(f)
 			}
+			_ = ftb
+			// every string constant the parser mentions, however it is used (==, switch, HasPrefix, a table)
 			eachInstr(f, func(i ssa.Instruction) {
-				if bo, ok := i.(*ssa.BinOp); ok {
-					t := ftb.T(bo)
-					if t.isBin("==") {
-						for k := 0; k < 2; k++ {
-							if s, ok := t.Args[k].constStr(); ok && s != "" {
-								parserKW[s] = true
-							}
+				for _, op := range i.Operands(nil) {
+					if op == nil || *op == nil {
+						continue
+					}
+					if cst, ok := (*op).(*ssa.Const); ok && cst.Value != nil && cst.Value.Kind() == constant.String {
+						if sv := constant.StringVal(cst.Value); sv != "" {
+							parserKW[sv] = true
 						}
 					}
 				}
@@ -882,7 +885,13 @@ func checkLocationPrinter(c *Ctx, bl, pl *ssa.Function) {
 		var bad []string
 		for _, k := range printerKW {
 			base := strings.TrimSuffix(k, "(")
-			if !parserKW[base] && !parserKW[k] {
+			found := false
+			for pk := range parserKW {
+				if strings.Contains(pk, base) {
+					found = true
+				}
+			}
+			if !found {
 				if len(parserKW) > 0 {
 					st = broken
 				} else {
